@@ -130,12 +130,18 @@ impl BricksDomain {
                         }
                         // --Step 4-- Check whether two successive bricks have equal content.
                         // If so, merge them with the same content and add their min and max values together.
+                        // The merge is skipped if step 5 would break up the merged brick again,
+                        // since otherwise steps 4 and 5 would undo each other forever.
                         else if current_brick.get_sequence() == next_brick.get_sequence() {
                             let merged_brick =
                                 current_brick.merge_bricks_with_equal_content(next_brick);
-                            normalized[index] = BrickDomain::Value(merged_brick);
-                            normalized.remove(index + 1);
-                            break;
+                            if merged_brick.get_min() == 0
+                                || merged_brick.get_min() == merged_brick.get_max()
+                            {
+                                normalized[index] = BrickDomain::Value(merged_brick);
+                                normalized.remove(index + 1);
+                                break;
+                            }
                         }
                     }
                 }
